@@ -274,7 +274,7 @@ def explore(tier, seed, res=None, replay=None):
                 "with a clean namespace and with the registry names bound to unrelated objects in "
                 "extra_namespace / the caller's locals / the caller's globals; non-trivial = every "
                 "case except the trivial I(x); distinct by (helper, arguments, frame seed, scope)")
-    n_frames = 60 if tier == "quick" else 1600
+    n_frames = 60 if tier == "quick" else 1000
     reqs, owners = [], []
 
     def add(req, case, why=None):
